@@ -405,6 +405,188 @@ def classic_setup_concludes_on_both_sides(allow: int, role: int) -> bool:
         return (a[0].status == 0) == (b[0].status == 0)
 
 
+# ------------------------------------------------------------------------------------------
+# procedures: LE encryption start, CIS set-up and CIS teardown
+def _cs_status(sink):
+    return [d for d in sink.packets if d[1] == hci.HCI_COMMAND_STATUS_EVENT][-1][3]
+
+
+def _le_pair2(loop):
+    """LE connection between two controllers, both host sinks kept: (c, peer, sink, psink, handle at c, handle at peer)"""
+    c, peer, sink, handle = _le_pair(loop)
+    psink = peer.host
+    done = [e for e in _events(psink, hci.HCI_LE_Connection_Complete_Event) + _events(psink, hci.HCI_LE_Enhanced_Connection_Complete_Event) if e.status == 0]
+    return c, peer, sink, psink, handle, (done[0].connection_handle if done else None)
+
+
+def _enc_changes(sink, handle):
+    return [e for e in _events(sink, hci.HCI_Encryption_Change_Event) + _events(sink, hci.HCI_Encryption_Change_V2_Event) if e.connection_handle == handle]
+
+
+@harness(pre=['0 <= bad <= 2 and 0 <= r0 <= 255 and 0 <= r7 <= 255 and 0 <= ediv <= 65535 and 0 <= k0 <= 255 and 0 <= k15 <= 255'], family='procedures', twin=True, timeout=(90, 300),
+         kernels=K_CTL + ('bumble.controller.Controller.on_hci_le_enable_encryption_command', 'bumble.controller.Controller.on_le_encrypted', 'bumble.controller.Controller.on_ll_control_pdu'),
+         bounds='LE Enable Encryption on a live LE link (rand, EDIV and LTK bytes symbolic) or with a handle that is not an LE connection (unknown handle / no connection at all): one Command Status; when it is PENDING/SUCCESS exactly one Encryption Change for that handle reaches the central host and one the peripheral host, otherwise none')
+def le_encryption_concludes(bad: int, r0: int, r7: int, ediv: int, k0: int, k15: int) -> bool:
+    bad = C(bad, 0, 2)
+    with detloop.running() as loop:
+        with untraced():
+            c, peer, sink, psink, handle, phandle = _le_pair2(loop)
+        if handle is None or phandle is None:
+            return False
+        n0 = len(replies(sink))
+        target = handle if bad == 0 else (handle + 1 if bad == 1 else 0x0EFF)
+        c.on_hci_command_packet(hci.HCI_LE_Enable_Encryption_Command(
+            connection_handle=target, random_number=_B(r0, 1, 2, 3, 4, 5, 6, r7), encrypted_diversifier=ediv, long_term_key=_B(k0, *range(14), k15)))
+        _settle(loop)
+        r = replies(sink)[n0:]
+        if len(r) != 1 or r[0][0] != 'cs' or r[0][1] != hci.HCI_LE_ENABLE_ENCRYPTION_COMMAND:
+            return False
+        if _cs_status(sink) != 0:
+            return not _enc_changes(sink, target) and not _enc_changes(psink, phandle)
+        return bad == 0 and len(_enc_changes(sink, handle)) == 1 and len(_enc_changes(psink, phandle)) == 1
+
+
+def _set_cig(c, sink, loop, ids):
+    n = len(ids)
+    n0 = len(sink.packets)
+    c.on_hci_command_packet(hci.HCI_LE_Set_CIG_Parameters_Command(
+        cig_id=1, sdu_interval_c_to_p=10000, sdu_interval_p_to_c=10000, worst_case_sca=0, packing=0, framing=0, max_transport_latency_c_to_p=10, max_transport_latency_p_to_c=10,
+        cis_id=list(ids), max_sdu_c_to_p=[100] * n, max_sdu_p_to_c=[100] * n, phy_c_to_p=[1] * n, phy_p_to_c=[1] * n, rtn_c_to_p=[1] * n, rtn_p_to_c=[1] * n))
+    _settle(loop)
+    done = [e for e in (hci.HCI_Packet.from_bytes(d) for d in sink.packets[n0:]) if isinstance(e, hci.HCI_Command_Complete_Event)]
+    return list(done[0].return_parameters.connection_handle)
+
+
+def _established(sink, handle):
+    return [e for e in _events(sink, hci.HCI_LE_CIS_Established_Event) if e.connection_handle == handle]
+
+
+def _disconnected(sink, handle):
+    return [e for e in _events(sink, hci.HCI_Disconnection_Complete_Event) if e.connection_handle == handle]
+
+
+K_CIS = K_CTL + ('bumble.controller.Controller.on_hci_le_set_cig_parameters_command', 'bumble.controller.Controller.on_hci_le_create_cis_command',
+                 'bumble.controller.Controller.on_hci_le_accept_cis_request_command', 'bumble.controller.Controller.on_le_cis_request',
+                 'bumble.controller.Controller.on_le_cis_established', 'bumble.controller.Controller.on_le_cis_disconnected',
+                 'bumble.controller.Controller.on_hci_disconnect_command', 'bumble.controller.Controller.on_le_disconnected')
+
+
+@harness(pre=['0 <= n <= 1 and 0 <= bad <= 2 and 0 <= order <= 1 and 1 <= id0 <= 0xEF and 1 <= id1 <= 0xEF and id0 != id1'], family='procedures', twin=True, timeout=(120, 300), kernels=K_CIS,
+         bounds='CIS set-up between two virtual controllers over a live LE link: Set CIG Parameters with 1 or 2 CIS (ids symbolic), one LE Create CIS naming all of them (all handles valid, or the last CIS handle / the ACL handle not known), the peripheral host accepts the requests in either order: one Command Status per command; when Create CIS was accepted every CIS of the command is concluded by exactly one LE CIS Established at the central, and every accepted request by exactly one at the peripheral; a refused Create CIS is outside (no clause)')
+def cis_setup_concludes(n: int, bad: int, order: int, id0: int, id1: int) -> bool:
+    n, bad, order = C(n, 0, 1) + 1, C(bad, 0, 2), C(order, 0, 1)
+    with detloop.running() as loop:
+        with untraced():
+            c, peer, sink, psink, handle, phandle = _le_pair2(loop)
+        if handle is None:
+            return False
+        cis = _set_cig(c, sink, loop, [id0, id1][:n])
+        if len(cis) != n or len(set(cis)) != n or handle in cis:
+            return False
+        n0 = len(replies(sink))
+        named = list(cis)
+        acl = [handle] * n
+        if bad == 1:
+            named[-1] = 0x0EFE
+        elif bad == 2:
+            acl[-1] = 0x0EFD
+        c.on_hci_command_packet(hci.HCI_LE_Create_CIS_Command(cis_connection_handle=named, acl_connection_handle=acl))
+        _settle(loop)
+        r = replies(sink)[n0:]
+        if len(r) != 1 or r[0][0] != 'cs' or r[0][1] != hci.HCI_LE_CREATE_CIS_COMMAND:
+            return False
+        if _cs_status(sink) != 0:
+            return bad != 0
+        if bad != 0:
+            return False                       # a command naming an unknown handle must not be accepted as pending
+        reqs = _events(psink, hci.HCI_LE_CIS_Request_Event)
+        if len(reqs) != n or any(q.acl_connection_handle != phandle for q in reqs):
+            return False
+        for q in (reqs if order == 0 else reqs[::-1]):
+            p0 = len(replies(psink))
+            peer.on_hci_command_packet(hci.HCI_LE_Accept_CIS_Request_Command(connection_handle=q.cis_connection_handle))
+            _settle(loop)
+            pr = replies(psink)[p0:]
+            if len(pr) != 1 or pr[0][0] != 'cs' or _cs_status(psink) != 0:
+                return False
+        return all(len(_established(sink, h)) == 1 and _established(sink, h)[0].status == 0 for h in cis) and \
+            all(len(_established(psink, q.cis_connection_handle)) == 1 for q in reqs)
+
+
+def _cis_up(loop, n=2):
+    """LE link + CIG with n CIS at the central, the first of them established: (c, peer, sink, psink, acl, pacl, cis handles, peripheral CIS handle)"""
+    c, peer, sink, psink, handle, phandle = _le_pair2(loop)
+    cis = _set_cig(c, sink, loop, [3, 4][:n])
+    c.on_hci_command_packet(hci.HCI_LE_Create_CIS_Command(cis_connection_handle=[cis[0]], acl_connection_handle=[handle]))
+    _settle(loop)
+    q = _events(psink, hci.HCI_LE_CIS_Request_Event)[0]
+    peer.on_hci_command_packet(hci.HCI_LE_Accept_CIS_Request_Command(connection_handle=q.cis_connection_handle))
+    _settle(loop)
+    assert len(_established(sink, cis[0])) == 1 and len(_established(psink, q.cis_connection_handle)) == 1
+    return c, peer, sink, psink, handle, phandle, cis, q.cis_connection_handle
+
+
+@harness(pre=['0 <= who <= 1 and 0 <= target <= 2 and 0 <= reason <= 255'], family='procedures', twin=True, timeout=(120, 300), kernels=K_CIS,
+         bounds='Disconnect (reason symbolic) of a CIS handle: an established CIS closed by the central or by the peripheral host, the same handle disconnected a second time after it was closed, or a CIS handle of the CIG that was never established: one Command Status each; whenever the status is PENDING/SUCCESS a Disconnection Complete for that handle follows (and the first one also reaches the other end); otherwise an error status and nothing pending')
+def cis_disconnect_concludes(who: int, target: int, reason: int) -> bool:
+    who, target = C(who, 0, 1), C(target, 0, 2)
+    with detloop.running() as loop:
+        with untraced():
+            c, peer, sink, psink, handle, phandle, cis, pcis = _cis_up(loop)
+        if target == 2:
+            if who == 1:
+                return True
+            x, xs, h = c, sink, cis[1]           # configured, never established
+            rounds = 1
+        else:
+            x, xs, h = (c, sink, cis[0]) if who == 0 else (peer, psink, pcis)
+            rounds = 1 + target
+        for k in range(rounds):
+            n0, d0 = len(replies(xs)), len(_disconnected(xs, h))
+            x.on_hci_command_packet(hci.HCI_Disconnect_Command(connection_handle=h, reason=reason))
+            _settle(loop)
+            r = replies(xs)[n0:]
+            if len(r) != 1 or r[0][0] != 'cs' or r[0][1] != hci.HCI_DISCONNECT_COMMAND:
+                return False
+            accepted = _cs_status(xs) == 0
+            got = len(_disconnected(xs, h)) - d0
+            if accepted and got != 1:
+                return False                     # accepted as pending and never concluded
+            if not accepted and got != 0:
+                return False
+            if k == 0 and target != 2:
+                if not accepted:
+                    return False                 # an established CIS can be closed
+                other = _disconnected(psink, pcis) if who == 0 else _disconnected(sink, cis[0])
+                if len(other) != 1:
+                    return False
+        return True
+
+
+@harness(pre=['0 <= who <= 1 and 0 <= stage <= 1 and 0 <= reason <= 255'], family='procedures', twin=True, timeout=(120, 300), kernels=K_CIS,
+         bounds='the LE link goes away (Disconnect of the ACL handle by the central or the peripheral host, reason symbolic) while a CIS is being set up (requested, not yet accepted) or after it was established: a pending Create CIS is concluded at the central by one LE CIS Established with an error status; an established CIS is reported closed (Disconnection Complete for the CIS handle) at both ends; the ACL disconnection itself is concluded at both ends')
+def cis_ends_with_its_acl(who: int, stage: int, reason: int) -> bool:
+    who, stage = C(who, 0, 1), C(stage, 0, 1)
+    with detloop.running() as loop:
+        with untraced():
+            c, peer, sink, psink, handle, phandle, cis, pcis = _cis_up(loop)
+            if stage == 0:
+                c.on_hci_command_packet(hci.HCI_LE_Create_CIS_Command(cis_connection_handle=[cis[1]], acl_connection_handle=[handle]))
+                _settle(loop)
+                if _cs_status(sink) != 0 or len(_events(psink, hci.HCI_LE_CIS_Request_Event)) != 2:
+                    return False
+        x, xs, h = (c, sink, handle) if who == 0 else (peer, psink, phandle)
+        x.on_hci_command_packet(hci.HCI_Disconnect_Command(connection_handle=h, reason=reason))
+        _settle(loop)
+        if len(_disconnected(sink, handle)) != 1 or len(_disconnected(psink, phandle)) != 1:
+            return False
+        if stage == 0:
+            e = _established(sink, cis[1])
+            if len(e) != 1 or e[0].status == 0:
+                return False
+        return len(_disconnected(sink, cis[0])) == 1 and len(_disconnected(psink, pcis)) == 1
+
+
 def conditions():
     out = registered(__name__)
     out += gencodec.conditions(['hcicmd'], timeout=(40.0, 120.0), oracle=reply_once, prefix='reply_', family='controller-reply-once', kernels=K_CTL,
